@@ -126,6 +126,13 @@ def gen_case(rng):
         "short_ext": rng.random() < 0.3,
         "via_cli": rng.random() < 0.25,
     }
+    if fmt == "bam" and rng.random() < 0.45:
+        # an aligned BAM (as written by `haplotag`): forward / reverse, paired, secondary, supplementary (hard-clipped), duplicate
+        # and QC-fail records; every record is one read of the input
+        opts["mapped"] = True
+        for r in reads:
+            r["flag"] = rng.choice([0, 0, 16, 99, 147, 256, 272, 2048, 2064, 1024, 512, 4])
+            r["pos"] = rng.randint(0, 5000)
     return {"fmt": fmt, "ploidy": ploidy, "reads": reads, "entries": entries, "opts": opts}
 
 
@@ -146,9 +153,12 @@ def _write_inputs(case, tmp):
                 fh.write(txt)
     else:
         header = {"HD": {"VN": "1.5", "SO": "unknown"}, "RG": [{"ID": "rg1", "SM": "s"}]}
+        mapped = case["opts"].get("mapped")
+        if mapped:
+            header["SQ"] = [{"SN": "chrA", "LN": 100000}]
         with pysam.AlignmentFile(rp, "wb", header=header) as out:
             for r in case["reads"]:
-                a = pysam.AlignedSegment()
+                a = pysam.AlignedSegment(out.header) if mapped else pysam.AlignedSegment()
                 a.query_name = r["name"]
                 a.flag = 4
                 a.reference_id = -1
@@ -157,6 +167,17 @@ def _write_inputs(case, tmp):
                 if r["seq"]:
                     a.query_sequence = r["seq"]
                     a.query_qualities = pysam.qualitystring_to_array(r["qual"])
+                if mapped and r.get("flag", 4) != 4:
+                    a.flag = r["flag"]
+                    a.reference_id = 0
+                    a.reference_start = r["pos"]
+                    a.mapping_quality = 30
+                    n = len(r["seq"] or "")
+                    if n:
+                        a.cigartuples = ([(5, 7)] if r["flag"] & 2048 else []) + [(0, n)]
+                    if r["flag"] & 1:
+                        a.next_reference_id = 0
+                        a.next_reference_start = r["pos"] + 50
                 a.set_tag("RG", "rg1")
                 a.set_tag("zt", r["tag"])
                 out.write(a)
